@@ -54,10 +54,10 @@ type proc struct {
 }
 
 type runner struct {
-	ch   *Check
-	opt  Options
-	mu   sync.Mutex
-	nextWorker int
+	ch          *Check
+	opt         Options
+	mu          sync.Mutex
+	nextWorker  int
 	raceReports []raceReport
 }
 
@@ -242,6 +242,10 @@ func (r *runner) runCase(p *proc, cr *caseResult, isolated bool) (ok bool) {
 			if err := json.Unmarshal(g.b, &wr); err == nil && wr.ID == cr.c.ID {
 				cr.done, cr.obs, cr.cpuMS, cr.wall = true, wr.Obs, wr.CPUms, wr.Wall
 				p.stderrSince()
+				if wr.Obs.Poisoned {
+					p.kill()
+					return false
+				}
 				return true
 			}
 		}
@@ -307,9 +311,23 @@ func (r *runner) workerLoop(queue <-chan *caseResult, wg *sync.WaitGroup) {
 	}
 }
 
+var parentScratch string
+
+// ScratchDir returns the per-invocation scratch directory (in the parent and in workers).
+func ScratchDir() string {
+	if parentScratch != "" {
+		return parentScratch
+	}
+	if d := os.Getenv("VERIF_SCRATCH"); d != "" {
+		return d
+	}
+	return os.TempDir()
+}
+
 // Run executes a check and returns the process exit code.
 func Run(ch *Check, opt Options) int {
 	t0 := time.Now()
+	parentScratch = opt.Scratch
 	if ch.SelfTest != nil {
 		if err := ch.SelfTest(); err != nil {
 			fmt.Printf("ORACLE-BROKEN property=%s self-test failed: %v\n", ch.ID, err)
@@ -390,12 +408,12 @@ func Run(ch *Check, opt Options) int {
 }
 
 type replayFile struct {
-	Property string    `json:"property"`
-	Seed     int64     `json:"seed"`
-	Tier     string    `json:"tier"`
-	Case     Case      `json:"case"`
+	Property  string    `json:"property"`
+	Seed      int64     `json:"seed"`
+	Tier      string    `json:"tier"`
+	Case      Case      `json:"case"`
 	Violation Violation `json:"violation"`
-	Note     string    `json:"note,omitempty"`
+	Note      string    `json:"note,omitempty"`
 }
 
 func firstFatalLine(stderr string) string {
